@@ -55,6 +55,10 @@ def roots(ctx, sym, ferm, cls):
         kw = dict(ferm=True, phases="probe0", label=3) if ferm else {}
         for d in U.arrays(sym, n, menu, "a", charges, sp, cls=cls, **kw):
             out.append(d)
+    if cls == "dyn":
+        # (index, conjugate index) matrices: eigh / solve / trace apply to the state itself
+        kw = dict(ferm=True, phases="probe0", label=3) if ferm else {}
+        out.extend(U.pair_arrays(sym, "two", "le1", cls=cls, **kw))
     return out
 
 
